@@ -101,6 +101,15 @@ PROPS = {
                   "membership, random normal-range values for the 4-eps round trip, bitwise comparison of every trig/inverse function with the scalar function of the radian measure; "
                   "non-trivial = tag nt:*; distinct by hash",
              trusted=["rustc monomorphisation of the generic code at Xq, f32, f64", "libm for the native trig-wiring comparisons (same function on both sides)"]),
+    "C11": P(11, axioms=R_AXIOMS,
+             assumptions=["model (coq/Model/Metric.v, Vector.v, Point.v, Quaternion.v) is hand-written; tied to /repo by the exact-arithmetic correspondence of this run",
+              "theorems are over the reals with the standard library's sqrt/acos and atan2 as characterised in Proofs/RealInst.v; project_on over any field",
+              "'non-zero length' is the hypothesis 0 < magnitude2; rounding of native floats is outside the theorems (native f64 is only sampled, tolerance 1e-9, clause native-f64:metric)",
+              "the correspondence needs exact square roots: inputs have rational lengths (rational points of spheres scaled by rationals); angles between vectors of a rational plane at lattice directions, "
+              "plus generic pairs whose acos/atan2 is answered with the exact value of the f64 libm result"],
+             rule="dimensions 1-4, quaternions, points 1-3; vectors of rational length, pairs at rational distance; angle pairs at lattice directions (both orders) in rational planes of R^2, R^3, R^4; "
+                  "generic pairs for project_on / distance2 / magnitude2; non-trivial = tag nt:*; distinct by hash",
+             trusted=["rustc monomorphisation of the generic code at Xq and f64"]),
     "C12": P(12, assumptions=["model (coq/Model/Point.v) is hand-written; tied to /repo by the exact-arithmetic correspondence of this run",
               "integer scalar types: only no-overflow inputs", "centroid of the empty list divides by cast(0): outside the property (non-empty lists)"],
              trusted=["rustc monomorphisation of the generic code at Xq and i32"]),
